@@ -1,0 +1,25 @@
+//go:build verif
+
+// Machine-checked contracts of the lifts in this plugin (C18): each operator is ro.Map / ro.MapErr around one
+// call of the wrapped function; the lambda must call it exactly once with the item and return its results.
+// Generated once by `rovc liftgen`, reviewed, and kept as the specification. Comments only.
+
+package robase64
+
+
+//@ func Decode$1
+//@   props C18
+//@   maypanic
+//@   track call.*
+//@   ensures [calls-the-wrapped-function-once|C18] count(call.ANY) == 1 && called(call.Encoding.DecodeString)
+//@   ensures [passes-the-item-and-the-operator-parameters|C18] arg(call.Encoding.DecodeString, 0) == encoder && arg(call.Encoding.DecodeString, 1) == v
+//@   ensures [returns-its-results|C18] result0 == res(call.Encoding.DecodeString, 0) && result1 == res(call.Encoding.DecodeString, 1)
+
+//@ func Encode$1
+//@   props C18
+//@   maypanic
+//@   track call.*
+//@   ensures [calls-the-wrapped-function-once|C18] count(call.ANY) == 1 && called(call.Encoding.EncodeToString)
+//@   ensures [passes-the-item-and-the-operator-parameters|C18] arg(call.Encoding.EncodeToString, 0) == encoder && arg(call.Encoding.EncodeToString, 1) == v
+//@   ensures [returns-its-result|C18] result == res(call.Encoding.EncodeToString)
+
